@@ -48,6 +48,9 @@ void Sim::beginRegion(const std::vector<int>& inWorkerIds, int inCreatorId, bool
     rrNext = 0;
     scribbled = false;
     unfinished = 0;
+    readyVec.clear();
+    hasCommutative = false;
+    firstPending = 0;
     eventHash = mix64(eventHash, 0xB0000000ULL + workerIds.size());
 }
 
@@ -132,12 +135,15 @@ int Sim::submit(std::function<void()> body, std::vector<Dep> deps, int priority,
         }
         const int gi = int(as.groups.size()) - 1;
         t.slots.emplace_back(static_cast<void*>(&as), gi);
+        if (size_t(gi) > as.firstIncomplete) t.waiting += 1;
+        if (d.mode == AM_C) hasCommutative = true;
         if (gi > 0) {
             for (int p : as.groups[gi - 1].tasks) { setBit(t.pred, p); orInto(t.pred, tasks[p]->pred); }
         }
         lh = mix64(lh, hashStr(names[as.nameId]) * 4 + uint64_t(d.mode));
     }
     t.labelHash = lh;
+    if (t.waiting == 0) readyVec.push_back(id);
     if (t.parent >= 0) tasks[t.parent]->unfinishedChildren += 1;
     unfinished += 1;
     stats.tasks += 1;
@@ -162,16 +168,23 @@ int Sim::submit(std::function<void()> body, std::vector<Dep> deps, int priority,
     return id;
 }
 
-bool Sim::ready(const Task& t) const {
-    if (t.state != 0) return false;
+bool Sim::blockedByMutex(const Task& t) const {
+    if (!hasCommutative) return false;
     for (const auto& s : t.slots) {
         const AddrState& as = *static_cast<const AddrState*>(s.first);
-        const size_t gi = size_t(s.second);
-        if (as.firstIncomplete < gi) return false;
-        const Group& g = as.groups[gi];
-        if (g.mode == AM_C && g.inflight > 0) return false;
+        const Group& g = as.groups[size_t(s.second)];
+        if (g.mode == AM_C && g.inflight > 0) return true;
     }
-    return true;
+    return false;
+}
+
+bool Sim::ready(const Task& t) const {
+    return t.state == 0 && t.waiting == 0 && !blockedByMutex(t);
+}
+
+void Sim::makeReady(int id) {
+    auto it = std::lower_bound(readyVec.begin(), readyVec.end(), id);
+    readyVec.insert(it, id);
 }
 
 bool Sim::hb(int a, int b) const { return a < b && getBit(tasks[b]->pred, a); }
@@ -263,7 +276,12 @@ void Sim::runTask(int id, int wi, int kind) {
             for (int other : g.tasks) { if (other == id) break; if (tasks[other]->state != 2) { stats.commutativeReordered += 1; break; } }
         }
     }
-    for (int k = 0; k < id; ++k) if (tasks[k]->state == 0) { stats.inversions += 1; break; }
+    {
+        auto it = std::lower_bound(readyVec.begin(), readyVec.end(), id);
+        if (it != readyVec.end() && *it == id) readyVec.erase(it);
+        while (firstPending < tasks.size() && tasks[firstPending]->state != 0) firstPending += 1;
+        if (firstPending < size_t(id)) stats.inversions += 1;
+    }
     if (depth > 0) stats.overlaps += 1;
     if (kind == PK_WAIT) stats.deferredToWait += 1;
     if (t.createdBeforeScribble) stats.ranAfterScribble += 1;
@@ -298,6 +316,12 @@ void Sim::runTask(int id, int wi, int kind) {
         while (as.firstIncomplete < as.groups.size()
                && as.groups[as.firstIncomplete].done == int(as.groups[as.firstIncomplete].tasks.size())) {
             as.firstIncomplete += 1;
+            if (as.firstIncomplete < as.groups.size()) {
+                for (int nx : as.groups[as.firstIncomplete].tasks) {
+                    Task& nt = *tasks[size_t(nx)];
+                    if (nt.state == 0 && nt.waiting > 0) { nt.waiting -= 1; if (nt.waiting == 0) makeReady(nx); }
+                }
+            }
         }
     }
     if (wi >= 0) busyTaskOfWorker[wi] = -1;
@@ -329,8 +353,9 @@ void Sim::point(int kind) {
         }
         if (!start) return;
 
-        std::vector<int> readySet;
-        for (const auto& tp : tasks) if (tp->state == 0 && ready(*tp)) readySet.push_back(tp->id);
+        std::vector<int> filtered;
+        if (hasCommutative) { for (int r : readyVec) if (!blockedByMutex(*tasks[size_t(r)])) filtered.push_back(r); }
+        const std::vector<int>& readySet = hasCommutative ? filtered : readyVec;
         if (readySet.empty()) return;
         std::vector<int> idle;
         for (size_t i = 0; i < workerIds.size(); ++i) {
@@ -352,10 +377,11 @@ void Sim::point(int kind) {
             }
         }
         // statistics on priorities
-        for (int r : readySet) if (tasks[r]->priority > tasks[readySet[pickPos]]->priority) { stats.prioInversions += 1; break; }
+        if (readySet.size() <= 256) { for (int r : readySet) if (tasks[size_t(r)]->priority > tasks[size_t(readySet[size_t(pickPos)])]->priority) { stats.prioInversions += 1; break; } }
 
         decisions.push_back(Decision{int(ordinal), pickPos, workerPos});
-        runTask(readySet[pickPos], idle[workerPos], kind);
+        const int chosen = readySet[size_t(pickPos)];
+        runTask(chosen, idle[size_t(workerPos)], kind);
         if (kind == PK_WAIT) return;
     }
 }
